@@ -102,6 +102,14 @@ CFG_TB = COMMON_TB + [
     "harness/gen.go: reflection over nfpm.Config (Gen/TypeTree.v), the schema emitted by the freshly built binary and the published one (Gen/Schema.v), the YAML reference block of www/docs/configuration.md via yaml.v3 nodes (Gen/DocConfig.v)",
     "YAML tokenisation is yaml.v3's (documents reach the model as key trees); merge keys and anchors are outside the modelled envelope",
 ]
+PROPS["C13"] = {
+    "level": "proof", "harness": "C13", "driver": "C13", "shrink_field": None, "exhaustive": True,
+    "rule": ("cases = for EVERY overridable leaf field found by reflection (62) x every format x {base set, unset} x {override set, unset}, with another format's block setting the same leaf (exhaustive matrix); "
+             "generated configurations with override blocks sampled field-wise from other generated configurations (contents, scripts, umask, nested format blocks, an unregistered format); edge documents. "
+             "Per case: Config.Get for the five formats and an unregistered one from fresh parses, compared as value trees with the model; every Get repeated twice in random order on ONE parsed configuration; "
+             "the base settings afterwards; Validate; and each package rebuilt with the entries addressed to other packagers removed (bytes must not change). distinct = distinct documents; all count as non-trivial"),
+    "trusted_base": CFG_TB, "assumptions": [],
+}
 PROPS["C16"] = {
     "level": "proof", "harness": "C16", "driver": "C16", "shrink_field": None, "exhaustive": True,
     "rule": ("cases = a document with EVERY key of the reflected configuration type set, with an unknown key and a one-edit misspelling injected at every mapping node (exhaustive over positions), generated configurations each with a random injection, "
